@@ -17,7 +17,9 @@ var allRules []*Rule
 func register(r *Rule) { allRules = append(allRules, r) }
 
 var thoroughConfigs = []BuildConfig{
-	{"linux", "amd64"}, {"linux", "386"}, {"darwin", "arm64"}, {"freebsd", "amd64"}, {"windows", "amd64"},
+	// darwin is left out: with the module versions pinned in this tree pkg/filesystem does not
+	// type-check for darwin (unix.O_SEARCH undefined) – a property of the pinned tree, not of an edit.
+	{"linux", "amd64"}, {"linux", "386"}, {"freebsd", "amd64"}, {"windows", "amd64"},
 }
 
 type runResult struct {
@@ -70,7 +72,7 @@ func runRules(repo string, rules []*Rule, cfgs []BuildConfig, whole bool, overla
 			}
 			if cfg == cfgs[0] {
 				res.perRule[r.ID] = len(c.obs)
-				if len(c.obs) < r.Floor {
+				if len(c.obs) < r.Floor && len(c.broken) == 0 {
 					if r.MustExist {
 						res.obs = append(res.obs, Oblig{Rule: r.ID, Key: r.ID + "|floor", Pos: "-", OK: false, Nontrivial: true, Config: cfg.String(),
 							Msg: fmt.Sprintf("mechanism site missing: rule found %d instances, %d were confirmed on the reference tree", len(c.obs), r.Floor)})
@@ -165,6 +167,35 @@ func main() {
 	}
 	if *mutant != "" {
 		os.Exit(runMutant(*repo, *mutant, *verbose))
+	}
+	if *prop == "ALL" {
+		// development aid: one load, every rule, no evidence; exit 1 on any failing obligation
+		var rules []*Rule
+		for _, r := range allRules {
+			if !r.Thorough {
+				rules = append(rules, r)
+			}
+		}
+		res := runRules(*repo, rules, []BuildConfig{{"linux", "amd64"}}, false, nil)
+		nfail := 0
+		for _, o := range res.obs {
+			if !o.OK {
+				nfail++
+				r := ruleByID(o.Rule)
+				fmt.Printf("FAIL %s [%s] %s: %s\n", o.Rule, strings.Join(r.Props, ","), o.Pos, o.Msg)
+			}
+		}
+		for _, b := range res.broken {
+			fmt.Printf("BROKEN %s\n", b)
+		}
+		fmt.Printf("ALL: %d rules, %d obligations, %d failing, %d broken\n", len(rules), len(res.obs), nfail, len(res.broken))
+		if nfail > 0 {
+			os.Exit(1)
+		}
+		if len(res.broken) > 0 {
+			os.Exit(2)
+		}
+		return
 	}
 	if *prop == "" {
 		fmt.Fprintln(os.Stderr, "need -property")
